@@ -175,6 +175,8 @@ type c20Case struct {
 	Ent     int      `json:"ent,omitempty"`
 	Mode    string   `json:"mode,omitempty"`
 	Slot    uint32   `json:"slot,omitempty"`
+	L1      int      `json:"l1,omitempty"` // part seq: lengths of the consecutive Shuffle calls
+	L2      int      `json:"l2,omitempty"`
 }
 
 // ---------- part 1: FisherYatesShuffle ----------
@@ -495,6 +497,69 @@ func c20CheckAssign(r *vlib.Run, p c20Params, ent int, t uint32) {
 	}
 }
 
+
+// ---------- part 5: call sequences (hidden state between consecutive calls) ----------
+
+var c20SeqLens = []int{0, 1, 5, 6, 7, 8, 9, 16, 20, 341, 1023, 1025}
+
+// c20ShuffleOnce: one Shuffle call compared with the reference computed from scratch; the violation carries the
+// whole sequence case.
+func c20ShuffleOnce(r *vlib.Run, c c20Case, step string, n, ent int) {
+	s := c20ShuffleInput(n, 0)
+	e := c20Entropy(ent)
+	want := c20RefShuffle(s, e)
+	var got []uint32
+	in := c20ToU32(s)
+	p, msg, _ := vlib.Guard(func() { got = c20FromU32(shuffle.Shuffle(in, types.OpaqueHash(e))) })
+	r.Transition()
+	key := "sequence=" + c.Mode + ";" + step
+	switch {
+	case p:
+		r.Violation("shuffle.Shuffle", "go-panic", key, fmt.Sprintf("sequence %s entropy#%d lengths (%d,%d), call %s (len %d): Go panic %s", c.Mode, c.Ent, c.L1, c.L2, step, n, msg), c)
+	case !c20Eq(got, want):
+		r.Violation("shuffle.Shuffle", "wrong-value-after-earlier-call", key, fmt.Sprintf("sequence %s entropy#%d lengths (%d,%d), call %s (len %d, entropy#%d): %s (GP F.3)", c.Mode, c.Ent, c.L1, c.L2, step, n, ent, c20Diff(got, want)), c)
+	}
+}
+
+// c20CheckSeq: consecutive Shuffle calls in one process. Mode "AA": (A, l1) then (A, l2) — same entropy, shorter /
+// longer / equal; mode "ABA": (A, l1), (B, l1), (A, l2) with B sharing the first 8 bytes of A.
+func c20CheckSeq(r *vlib.Run, c c20Case) {
+	r.Eval()
+	rel := "equal"
+	if c.L1 < c.L2 {
+		rel = "grow"
+	} else if c.L1 > c.L2 {
+		rel = "shrink"
+	}
+	r.Class(fmt.Sprintf("seq %s %s first-multiple-of-8=%v", c.Mode, rel, c.L1%8 == 0))
+	other := c.Ent ^ 1
+	if c.Ent >= 6 {
+		other = 6 + 4*((c.Ent-6)/4) + ((c.Ent-6)%4+1)%4 // same prefix family
+	}
+	c20ShuffleOnce(r, c, "1", c.L1, c.Ent)
+	if c.Mode == "ABA" {
+		c20ShuffleOnce(r, c, "2-other-entropy", c.L1, other)
+	}
+	c20ShuffleOnce(r, c, "last-"+rel, c.L2, c.Ent)
+}
+
+// c20CheckModeSwitch: the same entropy under the tiny and the full parameter set one after the other in one process
+// (V = 6 then 1023 then 6, or 1023, 6, 1023): permute / NewGuranatorAssignments / G / G* each against the reference.
+func c20CheckModeSwitch(r *vlib.Run, ent int, fullFirst bool, t uint32) {
+	cc := c20Case{Part: "modeswitch", Ent: ent, Slot: t, Variant: map[bool]int{false: 0, true: 1}[fullFirst]}
+	c20SeqCase = &cc
+	defer func() { c20SeqCase = nil }()
+	ps := c20ParamSets()
+	order := []c20Params{ps[0], ps[1], ps[0]}
+	if fullFirst {
+		order = []c20Params{ps[1], ps[0], ps[1]}
+	}
+	for _, p := range order {
+		c20CheckAssign(r, p, ent, t)
+	}
+	r.Class(fmt.Sprintf("modeswitch full-first=%v", fullFirst))
+}
+
 func TestVerif_C20(t *testing.T) {
 	r := vlib.Start(t, "C20")
 	defer r.Finish()
@@ -513,6 +578,10 @@ func TestVerif_C20(t *testing.T) {
 					c20CheckAssign(r, p, rc.Ent, rc.Slot)
 				}
 			}
+		case "seq":
+			c20CheckSeq(r, rc)
+		case "modeswitch":
+			c20CheckModeSwitch(r, rc.Ent, rc.Variant == 1, rc.Slot)
 		case "prefix":
 			for _, p := range c20ParamSets() {
 				if p.name == rc.Mode {
@@ -635,6 +704,34 @@ func TestVerif_C20(t *testing.T) {
 				r.Space(1)
 				c20CheckAssign(r, p, ent, uint32(t))
 			}
+		}
+	}
+
+	// part 5: consecutive calls in one process: every ordered pair of lengths (l1, l2) from c20SeqLens (multiples and
+	// non-multiples of 8; grow, shrink, equal) x every entropy of the alphabet, same entropy twice (AA) and A, B, A;
+	// and the same entropy under tiny then full then tiny parameters (and full, tiny, full)
+	for ent := 0; ent < c20NEntropies; ent++ {
+		for _, mode := range []string{"AA", "ABA"} {
+			for _, l1 := range c20SeqLens {
+				for _, l2 := range c20SeqLens {
+					idx++
+					if !r.Mine(idx) {
+						continue
+					}
+					r.Space(1)
+					c20CheckSeq(r, c20Case{Part: "seq", Mode: mode, Ent: ent, L1: l1, L2: l2})
+				}
+			}
+		}
+	}
+	for ent := 0; ent < c20NEntropies; ent++ {
+		for _, fullFirst := range []bool{false, true} {
+			idx++
+			if !r.Mine(idx) {
+				continue
+			}
+			r.Space(1)
+			c20CheckModeSwitch(r, ent, fullFirst, uint32(5+ent))
 		}
 	}
 
